@@ -324,7 +324,13 @@ func ruleC17(prog *Program, rep *Report) {
 	ruleScopedFlag(prog, rep)
 	// tokenizer events
 	rep.Rules = append(rep.Rules, "A-events: the events oj.Tokenizer emits agree with the reference at every byte in single- and multi-document mode (see C03) and no reachable step of the tokenizer panics (a panic in MatchLoad is not parse-then-locate)")
+	// numbers delivered to the callback: no digit is left out on any path (N-digit, as in C02)
+	exploreDigitFns = numberDigitFns(prog)
+	exploreMirror = numberMirrorFns(prog)
+	rep.Rules = append(rep.Rules, "N-digit (see C02) for oj.Tokenizer: a digit that keeps the reference inside a number is used as a digit or added to the number's text on every path, also when the buffer ends right after it")
 	results := exploreFrontEnds(prog, []feSpec{jsonFrontEnds[2]}, []bool{false, true}, false)
+	exploreDigitFns, exploreMirror = nil, nil
+	reportKinds(rep, results, map[string]bool{"digit-misuse": true, "digit-dropped": true}, "N-digit")
 	applyParseResults(rep, results, union(kindsEvents, kindsPanic, map[string]bool{"stale-scratch": true}), "A-events", 18) // a key with a stale prefix is not matched
 }
 
